@@ -13,6 +13,8 @@ import (
 // VerifEvalBuildC38 parses and interprets code as the BUILD file of pkg, exactly as ParseFile does
 // (parseAndHandleErrors + interpreter.interpretAll), and returns the file-level globals as plain Go values.
 func VerifEvalBuildC38(p *Parser, pkg *core.Package, code string) (map[string]any, error) {
+	p.limiter.Acquire() // as ParseFile does; the real subinclude() releases and re-acquires it while it waits
+	defer p.limiter.Release()
 	stmts, err := p.parseAndHandleErrors(&namedReader{r: strings.NewReader(code), name: "verif_c38_input.build"})
 	if err != nil {
 		return nil, err
